@@ -6,13 +6,37 @@ import (
 	"strings"
 )
 
-// Types is the 6-type vocabulary of media types used by offers and ranges.
-// two of the types are proper prefixes of siblings (application/json-seq, text/plain-extra): lookups by prefix confuse them
-var Types = []string{"application/json", "application/xml", "text/plain", "text/html", "text/csv", "image/png", "application/json-seq", "text/plain-extra"}
+// Types is the vocabulary of media types used by offers and ranges.
+// two of the types are proper prefixes of siblings (application/json-seq, text/plain-extra): lookups by prefix confuse them;
+// two have a TYPE of which another type is a proper prefix (texture/plain, textile/x next to text/...): a "text/*" range
+// matched without its slash would take them in
+var Types = []string{"application/json", "application/xml", "text/plain", "text/html", "text/csv", "image/png", "application/json-seq", "text/plain-extra", "texture/plain", "textile/x"}
 
 // wildcard and foreign ranges
-var wildRanges = []string{"*/*", "text/*", "application/*", "image/*"}
+var wildRanges = []string{"*/*", "text/*", "application/*", "image/*", "texture/*", "textile/*"}
 var foreignRanges = []string{"audio/ogg", "video/*", "application/pdf"}
+
+// SiblingRanges derives, from a media type, ranges that must NOT match it although they nearly do:
+// "type/*" ranges whose type is a proper prefix (or an extension) of the type, and exact ranges one byte
+// short or one byte long ("text/plai", "text/plainx", "tex/plain").
+func SiblingRanges(t string) []string {
+	i := strings.IndexByte(t, '/')
+	if i <= 0 || i == len(t)-1 {
+		return nil
+	}
+	typ, sub := t[:i], t[i+1:]
+	out := []string{typ + "x/*", typ + "/" + sub + "x", "x" + typ + "/" + sub, typ + "x/" + sub}
+	if len(typ) > 1 {
+		out = append(out, typ[:len(typ)-1]+"/*", typ[:1]+"/*", typ[:len(typ)-1]+"/"+sub, typ[1:]+"/*")
+	}
+	if len(typ) > 3 {
+		out = append(out, typ[:3]+"/*")
+	}
+	if len(sub) > 1 {
+		out = append(out, typ+"/"+sub[:len(sub)-1], typ+"/"+sub[1:])
+	}
+	return out
+}
 
 // Codings is the vocabulary of content-codings.
 var Codings = []string{"gzip", "deflate", "br", "identity", "compress"}
@@ -172,14 +196,27 @@ func GenHeader(r *rand.Rand, fl Flavour, types []string) Header {
 		n = 1 + r.Intn(3)
 	}
 	g := &qGen{r: r, long: fl == LongQ || fl == Mixed, tails: map[int]string{}}
+	// one header in nine is made of near misses only: every range is a sibling of a vocabulary type
+	// (nothing is acceptable unless a sibling happens to be another vocabulary type)
+	siblingsOnly := r.Intn(9) == 0
+	sibling := func() string {
+		if sr := SiblingRanges(types[r.Intn(len(types))]); len(sr) > 0 {
+			return sr[r.Intn(len(sr))]
+		}
+		return "x/*"
+	}
 	var rs []Range
 	for i := 0; i < n; i++ {
 		var rg Range
 		switch k := r.Intn(20); {
-		case k < 12:
+		case siblingsOnly:
+			rg.Type = sibling()
+		case k < 11:
 			rg.Type = types[r.Intn(len(types))]
-		case k < 18:
+		case k < 16:
 			rg.Type = wildRanges[r.Intn(len(wildRanges))]
+		case k < 18:
+			rg.Type = sibling()
 		case k < 19:
 			rg.Type = foreignRanges[r.Intn(len(foreignRanges))]
 		default:
@@ -221,11 +258,19 @@ func GenHeader(r *rand.Rand, fl Flavour, types []string) Header {
 			if r.Intn(12) == 0 {
 				rg.Before = append(rg.Before, pickParam(r, quotedOutside))
 			}
+			// ... and after q (an accept-ext whose quoted value holds a comma or "q="): a parser that jumps to
+			// the next comma, or looks for the weight textually, trips here
+			if rg.HasQ && len(rg.After) < 2 && r.Intn(6) == 0 {
+				rg.After = append(rg.After, pickParam(r, quotedOutside))
+			}
 		case Mixed:
 			pre(preParams, 30)
 			pre(qSufParams, 15)
 			pre(quotedParams, 10)
 			post(postParams, 25)
+			if rg.HasQ && len(rg.After) < 2 && r.Intn(20) == 0 {
+				rg.After = append(rg.After, pickParam(r, quotedOutside))
+			}
 		}
 		rs = append(rs, rg)
 	}
